@@ -39,10 +39,13 @@ SPDX_SNIPPET_INDICATOR = b"SPDX-SnippetBegin"
 
 _LOGGER = logging.getLogger(__name__)
 
-_END_PATTERN = r"{}$".format(
-    "".join(
-        {
-            r"(?:{})*".format(item)  # pylint: disable=consider-using-f-string
+_END_PATTERN = r"(?:{})*$".format(
+    "|".join(
+        # A dict instead of a set: de-duplicated, but in a defined order, so
+        # that the pattern does not depend on the string hash seed. The
+        # endings may be stacked in any order.
+        dict.fromkeys(
+            r"(?:{})".format(item)  # pylint: disable=consider-using-f-string
             for item in chain(
                 (
                     re.escape(style.MULTI_LINE.end)
@@ -63,7 +66,7 @@ _END_PATTERN = r"{}$".format(
                     ]
                 ),
             )
-        }
+        )
     )
 )
 _LICENSE_IDENTIFIER_PATTERN = re.compile(
